@@ -313,6 +313,13 @@ fn explore(sc: &Scenario, prefix: Vec<usize>, bound: usize, dir: &Path, h: i64, 
         tally.capped = true;
         return;
     }
+    // the verdict is settled once violating executions have been seen; a tree on which most schedules deadlock would
+    // otherwise cost minutes (each such execution runs to its horizon). On a tree where the property holds this
+    // never triggers.
+    if tally.counts.values().sum::<u64>() >= 8 {
+        tally.capped = true;
+        return;
+    }
     let e = run_once(sc, prefix.clone(), dir, h, false);
     if e.rep.events.iter().any(|x| x.starts_with("DIVERGENCE")) {
         // diagnostics: the same prefix and its parent, re-run with the event log on
